@@ -318,6 +318,11 @@ class GroupQueryAttention(pattern.RewriteRuleClassBase):
         self.num_heads = num_heads
         self.kv_num_heads = kv_num_heads
 
+        # ORT's GroupQueryAttention (with do_rotary=1) requires head_size to be a multiple of 16.
+        head_size = _ir_utils.get_dim(query_BSHDh, 3)
+        if not isinstance(head_size, int) or head_size % 16 != 0:
+            return result.fail("head_size is not known to be a multiple of 16", query_BSHDh)
+
         # Rotary embedding attributes
         query_rotary_attributes = query_BHSDh_rope.producer().attributes
         key_rotary_attributes = key_BHkvSDh_rope.producer().attributes
